@@ -758,6 +758,17 @@ func c01Point(run *ev.Run, pc pacerCase, t int64, k uint64) {
 			c01Witness{Case: pc, Clause: "W-point", Elapsed: t, Hits: k, Wait: int64(w), SchedT: sT, Tol: tol})
 		return
 	}
+	// Sine and linear pacers solve for the wait numerically, so a positive wait at an arbitrary
+	// point far ahead of the schedule is only as good as their extrapolation (the property speaks
+	// of an attacker that followed the pacer from the start). But "go now" is never an
+	// extrapolation: a pacer that answers it while the count is more than a hit ahead of its
+	// schedule has wrapped somewhere.
+	if pc.Kind != "constant" && w <= 0 && (float64(k)+1) > sT+1+tol+1e-3+1e-9*(sT+float64(k)) {
+		run.Violate(fmt.Sprintf("C01/U-early/%s/go-now-while-ahead", pc.Kind),
+			fmt.Sprintf("%s pacer %+v at arbitrary point Pace(%d,%d)=(%d,false): hit number %.0f released at once although schedule=%.6g (wrapped arithmetic?)", pc.Kind, pc, t, k, int64(w), float64(k)+1, sT),
+			c01Witness{Case: pc, Clause: "U-point", Elapsed: t, Hits: k, Wait: int64(w), SchedAt: sT, SchedT: sT, Tol: tol})
+		return
+	}
 	// The hit k+1 is released at t+max(w,0): "go now" (w <= 0) while the count is already more than
 	// one hit ahead of the schedule is as early as a wait that is too short (a product that wrapped
 	// shows up as either).
